@@ -128,6 +128,9 @@ def _inline_one(P, f, raw, keep, depth):
             d_in = ev.get('inl_depth', 0) + 1
 
             def rn(x):
+                # *&obj (an out-parameter handed the address of a caller variable) is the object itself
+                if x.get('k') == 'un' and x.get('op') == '*' and isinstance(x.get('e'), dict) and x['e'].get('k') == 'un' and x['e'].get('op') == '&' and isinstance(x['e'].get('e'), dict):
+                    return x['e']['e']
                 if x.get('k') == 'var' and x.get('sc') in ('param', 'local'):
                     if x.get('sc') == 'param' and x['name'] in pmap:
                         return copy.deepcopy(pmap[x['name']])
